@@ -558,11 +558,14 @@ def encStructInt (r : Row) (v : PyNum) : M Payload := do
     | some bs => pure (.array bs)
     | none => .error .conv
 
-/-- `while not -2048 <= knx_value <= 2047: exponent += 1; knx_value /= 2` -/
+/-- `while not -2048 <= round(knx_value) <= 2047: exponent += 1; knx_value /= 2`
+(the rounded mantissa is tested since fix 155c128: 2047.25 still fits as 2047) -/
 def f16Loop : Nat → F → Nat → F × Nat
   | 0, x, e => (x, e)
   | fuel + 1, x, e =>
-    if F.cmpInt (-2048) x == some .gt || F.cmpInt 2047 x == some .lt then
+    if (match x.roundInt with
+        | .ok m => decide (m < -2048) || decide (m > 2047)
+        | .error _ => false) then
       f16Loop fuel ((F.div? x (F.ofInt 2)).getD x) (e + 1)
     else (x, e)
 
